@@ -94,14 +94,14 @@ _AUD = [
     R("mpeg1audio-single", "pkg/format/rtpmpeg1audio", "pkg/format/rtpmpeg1audio", ["ZzC03C06MPEG1Audio"], params={"N": 1, "P": 53, "MLO": 51, "MHI": 54},
       thorough_params={"MLO": 50, "MHI": 58}),
     R("mpeg1audio-agg", "pkg/format/rtpmpeg1audio", "pkg/format/rtpmpeg1audio", ["ZzC03C06MPEG1Audio"], params={"N": 2, "P": 49, "MLO": 100, "MHI": 101},
-      thorough_params={"MLO": 98, "MHI": 103}, tiers=("thorough",)),
+      thorough_params={"MLO": 98, "MHI": 103}),
     R("mpeg1audio-batches", "pkg/format/rtpmpeg1audio", "pkg/format/rtpmpeg1audio", ["ZzC03C06MPEG1Audio"], params={"N": 3, "P": 53, "MLO": 97, "MHI": 98, "COV1": 0},
       thorough_params={"MLO": 96, "MHI": 101}),  # a flush followed by a batch of two frames
     R("ac3-frag", "pkg/format/rtpac3", "pkg/format/rtpac3", ["ZzC03C06AC3"], params={"N": 1, "P": 140, "MLO": 36, "MHI": 37, "COV1": 0},
       thorough_params={"MLO": 20, "MHI": 44}),  # 36: a 128-byte frame is an exact multiple of the fragment size
     R("ac3-single", "pkg/format/rtpac3", "pkg/format/rtpac3", ["ZzC03C06AC3"], params={"N": 1, "P": 130, "MLO": 129, "MHI": 132},
       thorough_params={"P": 140, "MLO": 128, "MHI": 144}),
-    R("ac3-agg", "pkg/format/rtpac3", "pkg/format/rtpac3", ["ZzC03C06AC3"], params={"N": 2, "P": 128, "MLO": 257, "MHI": 259}, tiers=("thorough",)),
+    R("ac3-agg", "pkg/format/rtpac3", "pkg/format/rtpac3", ["ZzC03C06AC3"], params={"N": 2, "P": 128, "MLO": 257, "MHI": 259}),
 ]
 _M1V_Q = {"K": 1, "N": 2, "P": 8, "MLO": 6, "MHI": 9}
 _M1V_T = {"K": 2, "N": 2, "P": 8, "MLO": 6, "MHI": 13}
@@ -325,7 +325,7 @@ PROPS["C05"] = {
     ] + [
         R("media-fmt%d" % f, "pkg/description", "pkg/description", ["ZzC05MediaRT"], flags={"concoff": True, "workers": 5}, params={"FMT": f, "MEDIAFIX": 1},
           tiers=("quick", "thorough") if f not in (10, 11) else ("thorough",))
-        for f in range(20)
+        for f in range(21)
     ] + [
         R("media-pair-%d-%d" % (a, b), "pkg/description", "pkg/description", ["ZzC05MediaRT"], flags={"concoff": True, "workers": 5}, params={"FMT": a, "FMT2": b, "MEDIAFIX": 1})
         for (a, b) in [(0, 17), (0, 6), (2, 17), (19, 17), (19, 6), (3, 4), (17, 0)]
